@@ -7,6 +7,6 @@ mkdir -p .build replays evidence
 # Engine B (fmtsim): generate tables, build against /repo's working tree
 python3 fmtsim/gen.py --corpus-seed 1 --random-types 140 >/dev/null
 cp /repo/Cargo.lock fmtsim/Cargo.lock
-(cd fmtsim && cargo build --release --offline)
+(cd fmtsim && cargo build --release --offline --target-dir "$PWD/../.build/fmtsim")
 # Engine A (sessim)
 if [ -x sessim/setup.sh ]; then sessim/setup.sh; fi
